@@ -28,7 +28,8 @@ EXPECT_CLASSES = {"*": ["coarsen:fixed", "coarsen:variable", "k>chrom", "sched",
 
 T8 = [((1,) * 5, (1,) * 3), ((2, 1, 3, 1), (1, 2, 2, 1)), ((2, 2, 2, 3), (2, 2, 2, 2)), ((1,) * 6, (1,), (1,))]
 KS = [2, 3, 4, 7]
-COLAGG = [(["count", "score"], None), (["count"], None), (["count"], {"count": "max"}), (["score"], {"score": "mean"}), (["count", "score"], {"count": "min", "score": "max"})]
+COLAGG = [(["count", "score"], None), (["count"], None), (["count"], {"count": "max"}), (["score"], {"score": "mean"}), (["count", "score"], {"count": "min", "score": "max"}),
+          (["count"], {"count": "count"}), (["count"], {"count": "nunique"})]     # aggregates that do not return a single value unchanged
 
 
 TSMALL = [((1, 1),), ((1, 1, 1),), ((2, 2, 2, 2),), ((1, 2, 3, 1, 2),), ((2, 2, 2, 2, 2, 1),),
